@@ -17,7 +17,12 @@ import (
 	"golang.org/x/tools/go/ssa/ssautil"
 )
 
-const repoDir = "/repo"
+var repoDir = func() string {
+	if d := os.Getenv("VERIF_REPO"); d != "" {
+		return d
+	}
+	return "/repo"
+}()
 var verifDir = func() string {
 	if d := os.Getenv("VERIF_DIR"); d != "" {
 		return d
